@@ -514,7 +514,11 @@ Value Search::search(Position& position, Depth depth, Value alpha, Value beta,
         const Move move = begin[move_count];
         const bool moveIsQuiet = position.move_is_quiet(move);
 
+        // (not while every move searched so far loses to a mate: skipping
+        // the rest would turn "the moves I looked at are mated" into a mate
+        // score for the node)
         if (doFutilityPruning && moveIsQuiet
+                && bestValue > lost_in(MAX_DEPTH)
                 && !position.move_gives_check(move))
         {
             continue;
